@@ -3,7 +3,7 @@
    the fate of iteration variables from Gen/EvalTables.v (regenerated from the source on every run). *)
 From Coq Require Import String List ZArith Bool Sorted.
 Import ListNotations.
-Require Import Verif.Eval.Value Verif.Eval.Interp Verif.Eval.Tables Verif.Eval.PureProps Verif.Eval.SemProps Verif.Eval.TotalProps Verif.Gen.EvalTables.
+Require Import Verif.Eval.Value Verif.Eval.Interp Verif.Eval.Tables Verif.Eval.PureProps Verif.Eval.SemProps Verif.Eval.ExtProps Verif.Eval.TotalProps Verif.Gen.EvalTables.
 Local Open Scope string_scope.
 
 (* ---- purity ---- *)
@@ -165,6 +165,41 @@ Theorem C10_flatten_set_of_sets : forall ev sc ls sv rhs v sc',
 Proof. exact flatten_set_of_sets. Qed.
 Print Assumptions C10_flatten_set_of_sets.
 
+(* ---- the scope threading is invisible: where IS filter, flatten IS concat-map, a list transform IS map, each element
+        evaluated in the scope the iteration STARTED from (let-free bodies; "__$", the template-result name, unbound) ---- *)
+Theorem C10_eval_scope_extensional : forall fuel vs a b e,
+  (forall x, sget x a = sget x b) -> oeq (eval fuel vs a e) (eval fuel vs b e).
+Proof. exact eval_ext. Qed.
+Print Assumptions C10_eval_scope_extensional.
+
+Theorem C10_where_is_filter : forall n vs sc l r sv v sc' xs sc1,
+  eval (S n) vs sc (EBin OpWHERE l r sv) = Ok (v, sc') ->
+  eval n vs sc l = Ok (VList xs, sc1) -> lets r = [] -> sget implied_result sc1 = None ->
+  v = VList (filter (holds_at n vs sv r sc1) xs).
+Proof. exact where_is_filter. Qed.
+Print Assumptions C10_where_is_filter.
+
+Theorem C10_where_set_is_filter : forall n vs sc l r sv v sc' xs sc1,
+  eval (S n) vs sc (EBin OpWHERE l r sv) = Ok (v, sc') ->
+  eval n vs sc l = Ok (VSet xs, sc1) -> lets r = [] -> sget implied_result sc1 = None ->
+  v = VSet (filter (holds_at n vs sv r sc1) xs).
+Proof. exact where_set_is_filter. Qed.
+Print Assumptions C10_where_set_is_filter.
+
+Theorem C10_flatten_is_concat_map : forall n vs sc l r sv v sc' ls sc1,
+  eval (S n) vs sc (EBin OpFLATTEN l r sv) = Ok (v, sc') ->
+  eval n vs sc l = Ok (VList (map VList ls), sc1) -> lets r = [] -> sget implied_result sc1 = None ->
+  v = VList (flat_map (fun xs => map (value_at n vs sv r sc1) xs) ls).
+Proof. exact flatten_is_concat_map. Qed.
+Print Assumptions C10_flatten_is_concat_map.
+
+Theorem C10_list_transform_is_map : forall n vs sc arg sv ss v sc' xs sc0,
+  eval (S n) vs sc (ETransform arg sv ss TyOther) = Ok (v, sc') -> is_dot_name arg = false ->
+  eval n vs sc arg = Ok (VList xs, sc0) -> lets_stmts ss = [] -> sget implied_result sc0 = None ->
+  v = VList (map (record_at n vs sv ss sc0) xs).
+Proof. exact list_transform_is_map. Qed.
+Print Assumptions C10_list_transform_is_map.
+
 (* where exists for lists and sets of every element kind; every table entry is a function the model knows *)
 Theorem C10_tables_known :
   forallb (fun p => negb (vfun_eqb (snd p) F_unknown)) value_functions
@@ -187,11 +222,20 @@ Theorem C10_eval_deterministic : forall fuel vs sc e r1 r2, eval fuel vs sc e = 
 Proof. exact eval_deterministic. Qed.
 Print Assumptions C10_eval_deterministic.
 
-(* ---- totality on well-typed expressions: PARTIAL (see Eval/TotalProps.v for the fragment and what is missing:
-        transforms / lets / records / attribute access / view calls / flatten / != / division / str) ---- *)
-Theorem C10_eval_total_on_typed_partial : forall vs G e t,
-  assoc String.eqb ".count" vs = None -> has_type G e t ->
+(* ---- totality on well-typed expressions (Eval/TotalProps.v: what the typing judgement covers - lets, records,
+        attribute access, transforms over lists / sets, view calls - and what it does not: map-entry transforms,
+        flatten over maps, computed divisors, str / single) ---- *)
+Theorem C10_eval_total_on_typed : forall vs G e t,
+  assoc String.eqb ".count" vs = None -> has_type vs G e t ->
   exists k, forall n sc, k <= n -> env_ok G sc ->
     exists v sc', eval n vs sc e = Ok (v, sc') /\ vtyped v t = true /\ env_ok G sc'.
-Proof. exact eval_total_on_typed_partial. Qed.
-Print Assumptions C10_eval_total_on_typed_partial.
+Proof. exact eval_total_on_typed. Qed.
+Print Assumptions C10_eval_total_on_typed.
+
+Theorem C10_evaluate_view_total : forall vs name vw ts t,
+  assoc String.eqb ".count" vs = None -> assoc String.eqb name vs = Some vw ->
+  has_type vs (combine (v_params vw) ts) (v_body vw) t ->
+  exists k, forall n sc, k <= n -> env_ok (combine (v_params vw) ts) sc ->
+    exists v sc', evaluate_view n vs name sc = Ok (v, sc') /\ vtyped v t = true.
+Proof. exact evaluate_view_total. Qed.
+Print Assumptions C10_evaluate_view_total.
